@@ -51,9 +51,9 @@ SPEC = {
  "C02": ([GEN + "ObTerminalBdd", (GEN + "ObBdd", r"enums_bdd"), (GEN + "ObBcdd", r"enums_bcdd"), (GEN + "ObZbdd", r"enums_zbdd"), "OxiddModel.Bdd.Properties", (B, r"not_sem|apply|Bin_sem|op_sem|ite|const_var|eval_sem|cofactors|var_nf"),
           (Z, r"zbdd_not|zbdd_apply|op_sem|zbdd_ite|zbdd_var|zbdd_cofactors|bool_view")], [("c02", ["bdd", "bcdd", "zbdd"])]),
  "C03": ([("OxiddModel.Bdd.PropertiesHistory", r"inv_|stored_nodes|l2v_bij|nodecount|step_|gc_"), "OxiddModel.Bdd.Properties", "OxiddModel.Bdd.PropertiesC12", (B, r"_nf$|reduce"), (Z, r"_nf|nf'")], [("c03", ["bdd", "bcdd", "zbdd"])]),
- "C04": ([(GEN + "ObBcdd", r"dispatch"), "OxiddModel.Bdd.PropertiesC04", (B, r"quant|restrict|applyQuant|dispatch|subst|varset|cube_sem|qsem"), (Z, r"restrict")], [("c04", ["bdd", "bcdd", "zbdd"])]),
+ "C04": ([(GEN + "ObBcdd", r"dispatch"), "OxiddModel.Bdd.PropertiesC04", ("OxiddModel.Bdd.PropertiesC04S", r"_spec|_sem|subst_id_reuse|base_ops"), (B, r"quant|restrict|applyQuant|dispatch|subst|varset|cube_sem|qsem"), (Z, r"restrict")], [("c04", ["bdd", "bcdd", "zbdd"])]),
  "C05": (["OxiddModel.Bdd.PropertiesC05", "OxiddModel.Alloc.Properties", "OxiddModel.Alloc.PropertiesTrace"], [("c05", ["bdd", "bcdd", "zbdd"])]),
- "C06": ([(GEN + "ObBdd", r"memo_"), (GEN + "ObMtbdd", r"memo_"), (GEN + "ObTdd", r"memo_"), "OxiddModel.Bdd.PropertiesC06", "OxiddModel.Bcdd.PropertiesC06", "OxiddModel.Zbdd.PropertiesC06"], [("c06", ["bdd", "bcdd", "zbdd"])]),
+ "C06": ([(GEN + "ObBdd", r"memo_"), (GEN + "ObMtbdd", r"memo_"), (GEN + "ObTdd", r"memo_"), "OxiddModel.Bdd.PropertiesC06", ("OxiddModel.Bdd.PropertiesC04S", r"key|transparent|unsound|closed_cache|ids_depend|historyX"), "OxiddModel.Bcdd.PropertiesC06", "OxiddModel.Zbdd.PropertiesC06"], [("c06", ["bdd", "bcdd", "zbdd"])]),
  "C07": ([GEN + "ObOrderings", "OxiddModel.Bdd.PropertiesC07", ("OxiddModel.Locks.Properties", r"acquisitions_ranked|no_deadlock|no_cyclic_wait|try_never_blocks|holds_buckets|exclusive_|reentrant_|pool_takes"), ("OxiddModel.Locks.PropertiesTrace", r"trace_|ok_toProg|accepts_|follows_|stepThread_trace|evWhy|driver_|ctxTable|tableContexts")], [("c07", ["bdd", "bcdd", "zbdd"])]),
  "C08": (["OxiddModel.Reorder.Properties", ("OxiddModel.Reorder.PropertiesStore", r"swapS_|swapsS_|bubbleDownS|setVarOrderS"), ("OxiddModel.Reorder.PropertiesStoreC", r"swapC_|swapsC_|setVarOrderC")], [("c08", ["bdd", "bcdd", "zbdd"])]),
  "C09": ([(Z, r"family|union|intsec|diff|subset|change|makeNode|bool_view|add_vars|taut|setops|const_nf"), ("OxiddModel.Zbdd.PropertiesC06", r"zbdd_setop_spec|zbdd_subset_spec|zbdd_not_spec|zbdd_ite_spec|zbdd_restrict_spec|zbdd_taut|zbdd_restrict_sound_across_addvars|zbdd_terminal_refines")], [("c09", ["zbdd"])]),
@@ -132,13 +132,13 @@ META = {
  "C03": ("Proved: every operation returns an ordered, reduced (kind-specific rule, BCDD then-edge regular) diagram; node count = number of distinct subterms and equal for equal functions; gc/closure well-formedness of the store (C05 layer). Tied by histories with a structural audit through the public API after every step (levels, reduction rule, duplicates per level, var/level maps inverse) and node_count against an independent reference construction.",
          "History-level induction over manager operations is being added (PropertiesHistory); the audit oracle is independent of the model.",
          "Lean proof of normal-form preservation + structural audit oracle on histories"),
- "C04": ("Proved for all trees: exists/forall/unique = iterated or/and/xor of cofactors (order independent), restrict = cofactor w.r.t. the literal cube, apply-and-quantify = apply then quantify (as trees), the BCDD dispatch tables are Boolean identities — also re-proved over the tables extracted from the current source —, substitution is simultaneous and leaves other variables untouched. Tied by exhaustive 3-variable streams and random instances; reuse/alternation of substitution objects across gc is in the streams.",
+ "C04": ("Proved for all trees: exists/forall/unique = iterated or/and/xor of cofactors (order independent), restrict = cofactor w.r.t. the literal cube, apply-and-quantify = apply then quantify (as trees), the BCDD dispatch tables are Boolean identities — also re-proved over the tables extracted from the current source —, substitution is simultaneous and leaves other variables untouched. Store level (BDD): the memoised quant / apply_quant / restrict / substitute over a hash-consed store return, for every admissible cache policy and every sound cache, an edge denoting the tree-level result (`quantS_spec`, `applyQuantS_spec`, `restrictS_spec`, `substituteS_spec`, relative to a registry id -> replacement vector). Tied by exhaustive 3-variable streams and random instances; reuse/alternation of substitution objects across gc is in the streams.",
          "Cache keying is part of the C06 layer/streams; identifiers of substitution objects created concurrently are checked for uniqueness on the real code (oracle), not proved.",
          "Lean proof + source-extracted table obligations + correspondence"),
  "C05": ("Proved for all stores/handle lists: the single top-down gc pass removes exactly the unreachable nodes (uses orderedness; bottom-up counterexample), keeps closure/duplicate-freeness, handles untouched, reference counts = handles + stored parent edges before/after clone, drop, new parent, gc; no handles => empty store. Tied: `gc` node counts and the full post-gc store with reference counts are identical to the model's; oracle on the real code at every point (garbage included): ref_count = live handles + stored parent edges + internal roots; leak monitor on stderr; a >65536-node collection followed by larger re-allocation; results dropped at once and recomputed after gc / add_vars / reordering (weak cache references); a small store driven across the high water mark many times so that the background collector runs (every line also on a large reference manager). The memory orderings of the reference-count protocol are extracted from the source and checked against what the interleaving models assume (Release decrement, Acquire before freeing).",
          "The table's own reference is not modelled; that Release/Acquire suffice is the standard Arc argument (assumed); the background gc thread is exercised, its free-list hand-over is covered by the allocator trace model where registered.",
          "Lean proof of gc exactness + reference-count oracle"),
- "C06": ("Proved (store-level BDD model with ids): for every admissible cache policy (exact, none, direct-mapped with any hash/capacity/lock-failure pattern) and every sound cache state the memoised not/apply/ite return an edge denoting the tree-level result; runs with different caches/policies return equal edges and stores; a hit needs the full key (tag + all operands); each operator is memoised under its own tag — also re-proved on the tags extracted from the current source for BDD, MTBDD, TDD; clearing establishes soundness; sweeping without clearing breaks it (witness). Tied by the same histories under cache capacities {1,2,16,65536}, different operators on the same operands, superset/subset variable sets, gc/reorder/add_vars between repetitions; the real direct-mapped cache driven directly through the ApplyCache trait against a monitor (a hit returns only what was added under exactly that key since the last clear). The same refinement is proved for BCDD (tag normalisation, and/xor kernels, ite) and for ZBDD (set operations, subset with the variable in the key, not, ite, restrict with the number of levels in the key, add_vars keeping an uncleared cache sound).",
+ "C06": ("Proved (store-level BDD model with ids): for every admissible cache policy (exact, none, direct-mapped with any hash/capacity/lock-failure pattern) and every sound cache state the memoised not/apply/ite return an edge denoting the tree-level result; runs with different caches/policies return equal edges and stores; a hit needs the full key (tag + all operands); each operator is memoised under its own tag — also re-proved on the tags extracted from the current source for BDD, MTBDD, TDD; clearing establishes soundness; sweeping without clearing breaks it (witness). Tied by the same histories under cache capacities {1,2,16,65536}, different operators on the same operands, superset/subset variable sets, gc/reorder/add_vars between repetitions; quant / apply_quant / restrict / substitute keys contain the variable set, all three operands with both operators, the cube, the substitution id (`quant_key_has_vars`, `apply_quant_key_full`, `restrict_key_has_cube`, `subst_key_has_id`) and dropping a component is unsound on concrete stores (`…_without_vars_unsound`, `subst_id_reuse_unsound`); the real direct-mapped cache driven directly through the ApplyCache trait against a monitor (a hit returns only what was added under exactly that key since the last clear). The same refinement is proved for BCDD (tag normalisation, and/xor kernels, ite) and for ZBDD (set operations, subset with the variable in the key, not, ite, restrict with the number of levels in the key, add_vars keeping an uncleared cache sound).",
          "The bucket implementation is abstracted by Policy.OK; MTBDD/TDD caches are covered by streams and the extracted-tag obligations.",
          "Lean refinement proof (store + cache) + extracted-table obligations + correspondence across cache sizes"),
  "C07": ("Proved: the apply algorithms run against an adversarial environment invoked at every atomic point (other threads' node creation, cache writes/evictions, the collector) that only preserves the invariant and the denotations of held edges — for every such environment and fork order the result denotes the sequential result and held edges are stable; every atomic action of the algorithms is itself such an environment step (rely/guarantee), a complete foreign apply is one too. Tied by concurrent scripts (2-4 OS threads, 2-16 workers, split depths 0/1/auto/64, concurrent gc) whose every result equals the sequential model's, followed by audit and exact reference counts; hang watchdog; collections racing with operations whose results die at once; a small store on which the background collector runs repeatedly. Deadlock freedom: a model of the locking protocol (lock classes with a rank order, try_lock/wait/join, RwLock with writer bit) with `no_deadlock_all` / `no_cyclic_wait` for every table row, bucket/level count and schedule; the table is tied to the code by lock events recorded from real concurrent runs (hook) and replayed through the model's discipline (`trace_ok_iff`, `trace_no_deadlock`). Memory orderings of reference counts and hand-written locks are extracted and checked.",
